@@ -58,6 +58,9 @@ def class_of(t: Ty) -> str | None:
     return None
 
 
+CLASS_LCA = None  # set by the engine: least common ancestor of two repo classes
+
+
 def join(a: Ty, b: Ty) -> Ty:
     if a == b:
         return a
@@ -69,7 +72,17 @@ def join(a: Ty, b: Ty) -> Ty:
         j = join(strip_opt(a), strip_opt(b))
         return opt(j)
     if a.k in ("obj", "sub") and b.k in ("obj", "sub"):
-        return ANY if a.a[0] != b.a[0] else sub(a.a[0])
+        if a.a[0] == b.a[0]:
+            return sub(a.a[0])
+        if CLASS_LCA is not None:
+            c = CLASS_LCA(a.a[0], b.a[0])
+            if c is not None:
+                return sub(c)
+        return ANY
+    if a.k == b.k and a.k in ("list", "vtuple") :
+        return Ty(a.k, (join(a.a[0], b.a[0]),))
+    if a.k == b.k == "dict":
+        return Ty("dict", (join(a.a[0], b.a[0]), join(a.a[1], b.a[1])))
     if {a.k, b.k} == {"int", "bool"}:
         return INT
     return ANY
